@@ -112,9 +112,9 @@ def run_property(pid, rule_module, root="/repo", tier="quick", seed=0, evidence_
         print(f"ANALYSIS-ERROR property={pid} internal error")
         traceback.print_exc(file=sys.stdout)
         return 2
-    from . import helpers, mustpass
+    from . import helpers, mustpass, views
     # the three rule families are independent: an anchor that one of them cannot find does not silence what the others decide
-    for family in (lambda: rule_module.run(ctx), lambda: helpers.run(ctx, pid), lambda: mustpass.run(ctx, pid)):
+    for family in (lambda: rule_module.run(ctx), lambda: helpers.run(ctx, pid), lambda: mustpass.run(ctx, pid), lambda: views.run(ctx, pid)):
         try:
             family()
         except AnalysisError as e:
